@@ -219,6 +219,14 @@ class Shapes:
                     self.eval(e.func.value, env) == CACHE:
                 return role('entry')
             return UNK
+        if isinstance(e, ast.DictComp):
+            # {k: v for k, v in <cache>.items() if ...}: a filtered copy of the cache is a cache
+            lenv = dict(env or {})
+            for g in e.generators:
+                self._bind_target(g.target, self.elem(self.eval(g.iter, lenv)), lenv)
+            if self.eval(e.key, lenv) == role('job-id') and self.eval(e.value, lenv) == role('entry'):
+                return CACHE
+            return UNK
         if isinstance(e, (ast.GeneratorExp, ast.ListComp, ast.SetComp)):
             lenv = dict(env or {})
             for g in e.generators:
